@@ -254,31 +254,132 @@ def rule_subsets(ctx):
     ok = "hnp.SearchStrategy.DEFAULT" in src
     ctx.record(R, "%s:%s" % (ES, cls), "uses SearchStrategy.DEFAULT", ok, "all three strategies enabled" if ok else "strategy changed")
   f = repo.func(hn, "_HiddenNumberProblemSubsets")
-  fn = f.node
-  src = ast.unparse(fn)
-  # regimes: len(a) > window (SLIDING and SINGLE-or-none-done), len(a) >= min_signatures, len(a) == min_signatures - 1 (INCLUDE_KEY)
+  w = sym.Walker(repo, f)
+  w.run()
+  a, b_, flags = P("param", "a"), P("param", "b"), P("param", "flags")
+  na = sym.mk("len", a)
+  ys = {}
+  for e in w.events:
+    if e.kind == "yield":
+      ys.setdefault(id(e.node), []).append(e)
   probs = []
-  if "if len(a) > sliding_window_size:" not in src:
-    probs.append("many-signature regime test changed")
-  if "elif len(a) >= min_signatures:" not in src:
-    probs.append("exact regime test is not len(a) >= min_signatures")
-  if "elif len(a) == min_signatures - 1:" not in src:
-    probs.append("key-inclusion regime test is not len(a) == min_signatures - 1")
-  if "if flags & SearchStrategy.SINGLE or not tests_done:" not in src:
-    probs.append("SINGLE fallback when no sliding test was done is missing")
-  if "for i in range(len(a) - sliding_window_size + 1):" not in src or "a0 = a[i:i + sliding_window_size]" not in src or "b0 = b[i:i + sliding_window_size]" not in src:
-    probs.append("sliding windows do not cover every start position with aligned slices")
-  if "yield (a + [0], b + [1], constant_list[:num_constants], w)" not in src:
-    probs.append("key-inclusion problem is not (a + [0], b + [1])")
-  if "yield (a, b, constant_list[:num_constants], w)" not in src:
-    probs.append("exact regime does not use all signatures")
-  ny = len([x for x in ast.walk(fn) if isinstance(x, ast.Yield)])
-  if ny < 4:
-    probs.append("a regime yields no problem")
-  if "if constants['curve'] != curve_type:\n            continue" not in src.replace("        ", "    ").replace("    ", "    ") and "constants['curve'] != curve_type" not in src:
-    probs.append("models are not filtered by curve")
-  ctx.record(R, f.where, "at least one problem whenever len(a) >= min_signatures - 1 (DEFAULT flags)", not probs, "; ".join(probs) or
-             "sliding + single for many signatures, one problem for enough signatures, key inclusion for one missing")
+  regimes = []          # (facts, loop trip expression or None)
+  NONE = P("lit", "None")
+  for evs in ys.values():
+    for e in evs:
+      v = e.data["value"]
+      if not (isinstance(v, Seq) and len(v.items) == 4):
+        probs.append("a yielded problem is not (a-subset, b-subset, constants, w)")
+        continue
+      A, B, CS, W_ = [x if isinstance(x, Seq) else as_poly(x) for x in v.items]
+      if isinstance(A, Seq) or isinstance(B, Seq) or isinstance(CS, Seq):
+        probs.append("a yielded problem is not built from a, b and the model's constants")
+        continue
+      # the same selection of a and b
+      L = None
+      Aa, Ba = A.as_atom(), B.as_atom()
+      if A == a and B == b_:
+        L = na
+      elif Aa is not None and Ba is not None and Aa.kind == "slice" and Ba.kind == "slice" and Aa.args[0] == a and Ba.args[0] == b_ and \
+          [repr(x) for x in Aa.args[1:]] == [repr(x) for x in Ba.args[1:]] and repr(Aa.args[3]) == repr(NONE):
+        lo = Poly.const(0) if repr(Aa.args[1]) == repr(NONE) else as_poly(Aa.args[1])
+        L = as_poly(Aa.args[2]) - lo
+      elif (A - a).as_atom() is not None and (B - b_).as_atom() is not None and (A - a).as_atom().kind == "seq" and (B - b_).as_atom().kind == "seq" \
+          and len((A - a).as_atom().args) == 1 and len((B - b_).as_atom().args) == 1:
+        ka, kb = (A - a).as_atom().args[0], (B - b_).as_atom().args[0]
+        if as_poly(ka).as_int() == 0 and as_poly(kb).as_int() == 1:
+          L = na + 1         # the private key as an extra sample: k = 0 + 1*d
+        else:
+          probs.append("the key-inclusion sample is not (a, b) = (0, 1)")
+      if L is None:
+        probs.append("a and b of a yielded problem are not the same selection of signatures (line %d)" % e.node.lineno)
+        continue
+      ca = CS.as_atom()
+      model = None
+      if ca is not None and ca.kind == "slice" and repr(ca.args[1]) == repr(NONE) and repr(ca.args[3]) == repr(NONE):
+        base = ca.args[0].as_atom()
+        if base is not None and base.kind == "idx" and repr(base.args[1]) == repr(P("lit", "'constants'")):
+          model = base.args[0]
+      if model is None:
+        probs.append("the constants of a yielded problem are not a prefix of the model's list")
+        continue
+      S = sym.mk("idx", model, P("lit", "'sample_size'"))
+      NC = as_poly(ca.args[2])
+      ok_nc = False
+      for at in NC.atoms():
+        if at.kind == "fdiv" and as_poly(at.args[1]) == L:
+          rest = NC - Poly.atom(at)
+          num = as_poly(at.args[0])
+          # ceil(S / L) = (S - 1) // L + 1 = (S + L - 1) // L ; anything at least that large is enough
+          for want_num, want_rest in ((S - 1, 1), (S + L - 1, 0)):
+            d1, d2 = (num - want_num).as_int(), (rest - want_rest).as_int()
+            if d1 is not None and d2 is not None and d1 >= 0 and d2 >= 0:
+              ok_nc = True
+      if not ok_nc:
+        probs.append("line %d: %r constants for %r signatures are not provably ceil(sample_size / signatures): the lattice may get fewer samples than the model needs" % (e.node.lineno, NC, L))
+      if as_poly(W_) != sym.mk("idx", model, P("lit", "'w'")):
+        probs.append("weight of a yielded problem is not the model's w")
+      from pcstatic import accum
+      trip = None
+      chain, straight = accum.enclosing_fors(f.node, e.node, accum.parents(f.node))
+      inner = [lp for lp in chain if not any(isinstance(x, ast.Name) and x.id == "CONSTANT_FACTORY" or isinstance(x, ast.Attribute) and x.attr == "CONSTANT_FACTORY" for x in ast.walk(lp.iter))]
+      if inner:
+        info = [i_ for i_ in w.loop_info.values() if i_["node"] is inner[-1]]
+        trip = accum.trip_count(info[0]["visits"][0]["iter"]) if info and info[0]["visits"] else None
+      regimes.append((model, e.facts, trip, e.node.lineno))
+  if len(ys) < 4:
+    probs.append("fewer than four problem shapes are produced (sliding, single, exact, key inclusion)")
+  # coverage: with all strategy flags set, some problem is produced whenever len(a) >= min_signatures - 1 (models keep min_signatures <= window: R-C08-LCG-TABLE)
+  if regimes and not probs:
+    from pcstatic import gridval
+    model = regimes[0][0]
+    Wn, MS, S = [sym.mk("idx", model, P("lit", "'%s'" % k_)) for k_ in ("sliding_window_size", "min_signatures", "sample_size")]
+    full = (vals.get("SINGLE") or 0) | (vals.get("SLIDING") or 0) | (vals.get("INCLUDE_KEY") or 0)
+    bad = None
+    for ms in (2, 3, 5):
+      for wn in (ms, ms + 1, ms + 4):
+        for sv in (wn, 2 * wn + 1, 15):
+          for n_ in range(0, 3 * wn + 3):
+            env = {na.as_atom(): n_, Wn.as_atom(): wn, MS.as_atom(): ms, S.as_atom(): sv, flags.as_atom(): full}
+            produced = False
+            for mdl, facts, trip, line in regimes:
+              okf = True
+              for fc in facts:
+                if fc[0] != "cmp":
+                  continue
+                if "CONSTANT_FACTORY" in repr(fc) and any(k_ in repr(fc) for k_ in ("'curve'", "'lcg'")):
+                  continue          # model selection, not a regime condition
+                try:
+                  h = gridval.holds(("cmp", fc[1], subst_band(fc[2], flags, full), subst_band(fc[3], flags, full)), env)
+                except Exception:
+                  h = None
+                if h is False:
+                  okf = False
+              if okf and trip is not None:
+                try:
+                  okf = gridval.ev(trip, env) >= 1
+                except gridval.Unknown:
+                  okf = False
+              produced = produced or okf
+            if produced != (n_ >= ms - 1) and bad is None:
+              bad = "len(a) = %d, min_signatures = %d, window = %d: %s" % (n_, ms, wn, "no problem is produced" if not produced else "a problem is produced from too few signatures")
+    if bad:
+      probs.append("regimes do not cover len(a) >= min_signatures - 1 exactly: " + bad)
+  ctx.record(R, f.where, "at least one problem whenever len(a) >= min_signatures - 1 (DEFAULT flags), each with ceil(sample_size / signatures) constants", not probs,
+             "; ".join(sorted(set(probs))[:3]) or "%d problem shapes: identical selections of a and b, constants[:ceil(sample_size / len)], model weight; regimes cover exactly len(a) >= min_signatures - 1" % len(ys))
+
+
+def subst_band(x, flags, full):
+  """band(c, flags) with all strategy bits set evaluates to c & full."""
+  if isinstance(x, (Seq, Const)):
+    return x
+  p = as_poly(x)
+  for at in list(p.atoms()):
+    if at.kind == "band" and any(as_poly(y) == flags for y in at.args):
+      cs = [as_poly(y).as_int() for y in at.args if as_poly(y) != flags]
+      if len(cs) == 1 and cs[0] is not None:
+        p = p.subst(at, Poly.const(cs[0] & full))
+  return p
 
 
 def rule_u2f(ctx):
